@@ -33,14 +33,13 @@ def apply_r3(model, tname, fields, string, q):
     elif tname in F:
         t = tname
     else:
+        # the Sid being built ("string?query") is a search when either part carries a search symbol
         s_old = model.is_search_string(string)
         s_new = any(model.is_search_string(v) for v in ov.values())
-        if s_old and s_new:
+        if s_old or s_new:
             t = F[0]
-        elif not s_old and not s_new:
-            return ("refused",)
         else:
-            return ("UNSPECIFIED", "search-ness ambiguous")
+            return ("refused",)
     return ("applied", t, {k: ov[k] for k in model.by_name[t].keys}, model.render(t, ov))
 
 
@@ -51,8 +50,7 @@ def unfold(model, s, leaf_filter_keys=None):
         return ("UNSPECIFIED", "colon")
     if "?" in s:
         body, filt = s.split("?", 1)
-        if "?" in filt:
-            return ("UNSPECIFIED", "several ?")
+        filt = filt.replace("?", "&")        # "all ? can be used as &"
         if filt == "":
             return ("UNSPECIFIED", "empty filter")
     else:
